@@ -627,3 +627,128 @@ Proof.
     - destruct (I2 k c IHr Hl s Hs) as [He _]. destruct (I1 s He) as [[]|Hd]. exact Hd. }
   intros key c sub Hr Hl Hs. exact (proj2 (I2 key c (Hreach key Hr) Hl sub Hs)).
 Qed.
+
+(* ---------- find_occurrences counts every mention exactly once ---------- *)
+Definition occ_cnt (occ : list (Z * list Z)) (sub key : Z) : nat :=
+  match lookup sub occ with Some l => count_occ Z.eq_dec l key | None => O end.
+
+Lemma occ_append_cnt s key occ sub k :
+  occ_cnt (occ_append s key occ) sub k
+  = (occ_cnt occ sub k + (if Z.eq_dec s sub then if Z.eq_dec key k then 1 else 0 else 0))%nat.
+Proof.
+  unfold occ_cnt, occ_append. destruct (lookup s occ) as [l0|] eqn:Es.
+  - rewrite lookup_update. destruct (Z.eqb s sub) eqn:E.
+    + apply Z.eqb_eq in E; subst sub. rewrite Es. destruct (Z.eq_dec s s); [|congruence].
+      rewrite count_occ_app. cbn [count_occ]. destruct (Z.eq_dec key k); reflexivity.
+    + apply Z.eqb_neq in E. destruct (Z.eq_dec s sub); [congruence|]. lia.
+  - rewrite (lookup_app_fresh _ _ _ _ Es). destruct (Z.eqb s sub) eqn:E.
+    + apply Z.eqb_eq in E; subst sub. rewrite Es. destruct (Z.eq_dec s s); [|congruence].
+      cbn [count_occ]. destruct (Z.eq_dec key k); reflexivity.
+    + apply Z.eqb_neq in E. destruct (Z.eq_dec s sub); [congruence|]. lia.
+Qed.
+
+(* one visit adds, for the visited key, the number of times each sub is mentioned *)
+Lemma occ_visit_cnt key : forall subs stack enq occ stack' enq' occ',
+  occ_visit key subs stack enq occ = (stack', enq', occ') ->
+  forall sub k, occ_cnt occ' sub k
+    = (occ_cnt occ sub k + (if Z.eq_dec key k then count_occ Z.eq_dec subs sub else 0))%nat.
+Proof.
+  induction subs as [|s r IH]; intros stack enq occ stack' enq' occ' H sub k; cbn [occ_visit] in H.
+  - injection H as _ _ <-. cbn [count_occ]. destruct (Z.eq_dec key k); lia.
+  - assert (Hstep : forall st en, occ_visit key r st en (occ_append s key occ) = (stack', enq', occ') ->
+              occ_cnt occ' sub k = (occ_cnt occ sub k + (if Z.eq_dec key k then count_occ Z.eq_dec (s :: r) sub else 0))%nat).
+    { intros st en Hv. rewrite (IH _ _ _ _ _ _ Hv sub k), occ_append_cnt. cbn [count_occ].
+      destruct (Z.eq_dec s sub), (Z.eq_dec key k); lia. }
+    destruct (memZ s enq); eapply Hstep; exact H.
+Qed.
+
+(* the stack never holds a processed key, and holds no key twice *)
+Lemma occ_visit_nodup key : forall subs stack enq occ stack' enq' occ',
+  occ_visit key subs stack enq occ = (stack', enq', occ') ->
+  NoDup stack -> (forall k, In k stack -> In k enq) ->
+  NoDup stack' /\ (forall k, In k stack' -> In k enq') /\
+  (forall k, In k stack' -> In k stack \/ ~ In k enq).
+Proof.
+  induction subs as [|s r IH]; intros stack enq occ stack' enq' occ' H Hnd Hsub; cbn [occ_visit] in H.
+  - injection H as <- <- _. repeat split; auto.
+  - destruct (memZ s enq) eqn:Em.
+    + exact (IH _ _ _ _ _ _ H Hnd Hsub).
+    + assert (Hs : ~ In s enq) by (intros Hi; apply memZ_In in Hi; congruence).
+      destruct (IH _ _ _ _ _ _ H) as [A [B C]].
+      * constructor; [intros Hi; apply Hs; apply Hsub; exact Hi|exact Hnd].
+      * intros k [<-|Hk]; [left; reflexivity|right; apply Hsub; exact Hk].
+      * split; [exact A|]. split; [exact B|].
+        intros k Hk. destruct (C k Hk) as [[<-|Hst]|Hn]; [right; exact Hs|left; exact Hst|].
+        right. intros Hi. apply Hn. right; exact Hi.
+Qed.
+
+Definition cnt_inv (dic : list (Z * mcell)) (done stack enq : list Z) (occ : list (Z * list Z)) : Prop :=
+  NoDup stack /\ (forall k, In k stack -> ~ In k done) /\
+  (forall k, In k stack -> In k enq) /\ (forall k, In k done -> In k enq) /\
+  forall sub k, occ_cnt occ sub k =
+    if in_dec Z.eq_dec k done
+    then match lookup k dic with Some c => count_occ Z.eq_dec (extract_subcells (cgeom c)) sub | None => O end
+    else O.
+
+Lemma occ_loop_cnt dic : forall fuel done stack enq occ out,
+  occ_loop fuel dic stack enq occ = Ok out -> cnt_inv dic done stack enq occ ->
+  exists done' enq', cnt_inv dic done' [] enq' out /\ (forall k, In k done -> In k done').
+Proof.
+  induction fuel as [|f IH]; intros done stack enq occ out H Hinv; cbn [occ_loop] in H.
+  - destruct stack; [|discriminate]. injection H as <-. exists done, enq. auto.
+  - destruct stack as [|key rest]; [injection H as <-; exists done, enq; auto|].
+    destruct (lookup key dic) as [c|] eqn:Ek; [|discriminate].
+    destruct (occ_visit key (extract_subcells (cgeom c)) rest enq occ) as [[st' en'] occ'] eqn:Ev.
+    destruct Hinv as [Hnd [Hsd [Hse [Hde Hc]]]].
+    inversion Hnd as [|? ? Hkr Hnd']; subst.
+    destruct (occ_visit_nodup key _ _ _ _ _ _ _ Ev Hnd' (fun k Hk => Hse k (or_intror Hk))) as [A [B C]].
+    destruct (occ_visit_spec key _ _ _ _ _ _ _ Ev) as [_ [Bq _]].
+    destruct (IH (key :: done) st' en' occ' out H) as [done' [enq' [Hfin Hsub]]].
+    + split; [exact A|]. split; [|split; [exact B|split]].
+      * intros k Hk [Heq|Hd].
+        -- subst k. destruct (C key Hk) as [Hr|Hn]; [contradiction|]. apply Hn. apply Hse. left; reflexivity.
+        -- destruct (C k Hk) as [Hr|Hn]; [exact (Hsd k (or_intror Hr) Hd)|]. apply Hn. apply Hde. exact Hd.
+      * intros k [Heq|Hd]; apply Bq; [subst k; apply Hse; left; reflexivity|apply Hde; exact Hd].
+      * intros sub k. rewrite (occ_visit_cnt key _ _ _ _ _ _ _ Ev sub k), Hc.
+        assert (Hkd : ~ In key done) by (apply Hsd; left; reflexivity).
+        destruct (Z.eq_dec key k) as [<-|Hne].
+        -- destruct (in_dec Z.eq_dec key done); [contradiction|].
+           destruct (in_dec Z.eq_dec key (key :: done)) as [_|Hn]; [|exfalso; apply Hn; left; reflexivity].
+           rewrite Ek. lia.
+        -- destruct (in_dec Z.eq_dec k done) as [Hd|Hd];
+             destruct (in_dec Z.eq_dec k (key :: done)) as [Hd2|Hd2]; try lia.
+           ++ exfalso. apply Hd2. right; exact Hd.
+           ++ exfalso. destruct Hd2 as [Heq|Hd2]; [congruence|contradiction].
+    + exists done', enq'. split; [exact Hfin|]. intros k Hk. apply Hsub. right; exact Hk.
+Qed.
+
+(* for a table with distinct keys: the number of times [key] is listed under
+   [sub] is the number of times the geometry of [key] mentions [sub], for every
+   reachable key - so len(occurrences[sub]) is the number of mentions *)
+Theorem find_occurrences_count dic occ : NoDup (map fst dic) -> find_occurrences dic = Ok occ ->
+  forall key c sub, reachable dic key -> lookup key dic = Some c ->
+    occ_cnt occ sub key = count_occ Z.eq_dec (extract_subcells (cgeom c)) sub.
+Proof.
+  intros Hnd H key c sub Hr Hl. pose proof H as H0. unfold find_occurrences in H.
+  set (roots := map fst (filter (fun kv => Z.eqb (cuniv (snd kv)) 0) dic)) in *.
+  assert (Hroots : NoDup roots).
+  { unfold roots. clear -Hnd. induction dic as [|[k v] r IH]; simpl in *; [constructor|].
+    inversion Hnd as [|? ? Hnot Hnd']; subst. destruct (cuniv v =? 0); simpl; [|exact (IH Hnd')].
+    constructor; [|exact (IH Hnd')]. intros Hin. apply Hnot. apply in_map_iff in Hin.
+    destruct Hin as [e [He Hin]]. apply filter_In in Hin. apply in_map_iff. exists e. tauto. }
+  destruct (occ_loop_cnt dic _ [] (rev roots) roots [] occ H) as [done [enq [[_ [_ [_ [_ Hc]]]] _]]].
+  { split; [apply NoDup_rev; exact Hroots|]. split; [intros k _ []|].
+    split; [intros k Hk; apply in_rev; exact Hk|]. split; [intros k []|].
+    intros s k. unfold occ_cnt. cbn [lookup]. destruct (in_dec Z.eq_dec k []) as [[]|]; reflexivity. }
+  rewrite Hc.
+  (* a reachable key is recorded under each of its subs, hence it is in done; a key
+     that mentions nothing has count 0 on both sides *)
+  destruct (in_dec Z.eq_dec key done) as [Hd|Hd]; [rewrite Hl; reflexivity|].
+  destruct (count_occ Z.eq_dec (extract_subcells (cgeom c)) sub) eqn:En; [reflexivity|].
+  exfalso. assert (Hin : In sub (extract_subcells (cgeom c))).
+  { apply (count_occ_In Z.eq_dec). lia. }
+  destruct (find_occurrences_complete dic occ H0 key c sub Hr Hl Hin) as [l [Hlo Hk]].
+  pose proof (Hc sub key) as Hz. unfold occ_cnt in Hz. rewrite Hlo in Hz.
+  destruct (in_dec Z.eq_dec key done); [contradiction|].
+  apply (count_occ_In Z.eq_dec) in Hk. lia.
+Qed.
